@@ -198,7 +198,11 @@ def _worker(task):
     samples = []
     compact = getattr(mod, 'compact', None)
 
+    thin = G.Thinner(sc, tier)
+
     def check(gen, x, fkw):
+        if thin.skip(gen):
+            return False
         r = evaluate(mod, x, fkw)
         if r is None:
             st.record(gen, (x, G.kw_key(fkw)), 'verr:not-valid-presentation')
